@@ -14,6 +14,7 @@ structure PState (α : Type) where
   done : Array (Option (List α)) := #[]      -- finished snapshots (`none` = root unreadable)
   stack : List (Frame α) := []
   started : Bool := false
+  emptyRoots : Array Nat := #[]
 
 def closeSnap {α} (ps : PState α) : Option (PState α) :=
   if !ps.started then some ps else
@@ -67,6 +68,10 @@ def stepRT (ps : PState RT) (tok : String) : Option (PState RT) :=
   | ["SU"] => do
     let ps ← closeSnap ps
     pure { ps with done := ps.done.push none }
+  | ["SV"] => do
+    -- root unreadable, its id is the empty tree's: re-created, snapshot left as it is
+    let ps ← closeSnap ps
+    pure { ps with done := ps.done.push (some [.other 0 0 0]), emptyRoots := ps.emptyRoots.push ps.done.size }
   | ["L", a, b, c] => do
     let (n, k, t) ← hdr3 a b c
     addNode ps (.other n k t)
@@ -79,6 +84,9 @@ def stepRT (ps : PState RT) (tok : String) : Option (PState RT) :=
   | ["U", a, b, c] => do
     let (n, k, t) ← hdr3 a b c
     addNode ps (.dir n k t 2 [])
+  | ["V", a, b, c] => do
+    let (n, k, t) ← hdr3 a b c
+    addNode ps (.dir n k t 3 [])
   | ["D", a, b, c] => do
     let h ← hdr3 a b c
     if ps.stack.isEmpty then none else
@@ -172,7 +180,8 @@ def handle : List String → String
         | none => "bad-op"
         | some ps =>
           let ix : Idx := fun d => (ixl.find? (·.1 == d)).map (·.2)
-          "ok " ++ " # ".intercalate (ps.done.toList.map fun root =>
+          "ok " ++ " # ".intercalate (ps.done.toList.zipIdx.map fun (root, i) =>
+            if ps.emptyRoots.contains i then "=-" else
             match root with
             | none => "~-"
             | some l =>
